@@ -73,6 +73,7 @@ void BaseCborOutputWriter__rotate_output(struct BaseCborOutputWriter *w, struct 
   g_rotations++;
 }
 /* ---- POSIX write/close/fstat and std::ofstream/rename (A11): nondeterministic failures, ghost event order */
+unsigned long g_os_accepted, g_w_size; char *g_w_base; _Bool g_w_bad, g_w_err; int g_errno;
 long lib_write(int fd, void *p, unsigned long n)
 {
   if (g_exc) return 0;
@@ -80,8 +81,13 @@ long lib_write(int fd, void *p, unsigned long n)
   long r = nondet_int();
   __CPROVER_assume(r >= -1 && (r < 0 || (unsigned long)r <= n));
   if (r != (long)n) g_lost = 1;
+  /* bytes the OS has accepted of the caller's chunk so far; a (re)try must offer exactly the part not yet accepted */
+  if ((char *)p != g_w_base + g_os_accepted || n != g_w_size - g_os_accepted) g_w_bad = 1;
+  if (r > 0) g_os_accepted += (unsigned long)r;
+  if (r < 0) { g_errno = nondet_int(); g_w_err = 1; }
   return r;
 }
+int *lib___errno_location(void) { return &g_errno; }
 unsigned long g_closes; int g_closed_fd;
 int lib_close(int fd) { if (g_exc) return 0; if (g_closes < 1000) g_closes++; g_closed_fd = fd; return 0; }
 struct stat_s { int x; };
